@@ -1113,9 +1113,12 @@ def verify_unit(unit_name, tier='quick', keep=None, mutate_text=None):
         text = mutate_text(text)
     gen_dir = os.path.join(CACHE, 'gen' if REPO == '/repo' else 'gen-scratch')
     os.makedirs(gen_dir, exist_ok=True)
-    gen_path = os.path.join(gen_dir, '%s.rs' % unit_name)
+    # per-process file name: two checks that share a unit may run concurrently
+    gen_path = os.path.join(gen_dir, '%s_p%d.rs' % (unit_name, os.getpid()))
     with open(gen_path, 'w') as f:
         f.write(text)
+    import atexit
+    atexit.register(lambda p=gen_path: os.path.exists(p) and os.replace(p, os.path.join(gen_dir, '%s.rs' % unit_name)))
     eargs, enotes = extern_args(ex.unit)
     rlimit = ex.unit.get('rlimit')
     res = run_verus(gen_path, eargs, rlimit=rlimit)
